@@ -120,3 +120,21 @@ def pair_gone(after, e):
     if ra is None:
         return True
     return (ra + '/files/' + e.name) not in after and (ra + '/info/' + e.name + '.trashinfo') not in after
+
+
+def parse_restore_items(stdout_text):
+    """like parse_restore_listing, but tolerant of newlines inside paths: a
+    line that does not look like a listing line continues the previous path"""
+    items = []
+    for ln in phys_lines(stdout_text):
+        if ln.startswith('What file to restore') or ln.startswith('No files trashed') or \
+                ln.startswith('No files were restored'):
+            continue
+        m = LISTING.match(ln)
+        if m and int(m.group(1)) == len(items):
+            items.append([int(m.group(1)), m.group(2), m.group(3)])
+        elif items:
+            items[-1][2] += '\n' + ln
+        else:
+            return None
+    return [tuple(x) for x in items]
